@@ -419,6 +419,15 @@ func runWorker(spec *Spec, tier, ws string, body func(w *W)) {
 		memLimit = uint64(spec.MemLimitMB) << 20
 	}
 	go w.memoryGuard(memLimit)
+	// a worker whose supervisor is gone must not go on writing into the work directory
+	go func(parent int) {
+		for {
+			time.Sleep(2 * time.Second)
+			if os.Getppid() != parent {
+				os.Exit(5)
+			}
+		}
+	}(os.Getppid())
 	// periodic partial flush, so that a crash or hang does not lose what was observed
 	stop := make(chan struct{})
 	go func() {
@@ -507,6 +516,16 @@ func supervise(spec *Spec, tier string) {
 	start := time.Now()
 	root := verifRoot()
 	workDir := filepath.Join(root, ".work", spec.ID)
+	// one run of a check at a time per /verif root: a second supervisor would share the work
+	// directory and the two would overwrite each other's worker results
+	os.MkdirAll(filepath.Join(root, ".work"), 0o755)
+	if lf, err := os.OpenFile(filepath.Join(root, ".work", spec.ID+".lock"), os.O_CREATE|os.O_RDWR, 0o644); err == nil {
+		if syscall.Flock(int(lf.Fd()), syscall.LOCK_EX|syscall.LOCK_NB) != nil {
+			fmt.Fprintf(os.Stderr, "hx: another run of %s is in progress in %s; waiting for it to finish\n", spec.ID, root)
+			syscall.Flock(int(lf.Fd()), syscall.LOCK_EX)
+		}
+		defer lf.Close()
+	}
 	os.RemoveAll(workDir)
 	if err := os.MkdirAll(workDir, 0o755); err != nil {
 		fmt.Fprintf(os.Stderr, "hx: %v\n", err)
